@@ -217,3 +217,207 @@ PROPS["C01"] = dict(
     assumptions=["records with fewer than 2^31 fields", "proved: the splitting core; trim / -p / -g / -r / the output "
                  "loop are the executable model, tied to the code by this run's correspondence check"],
 )
+
+
+# ------------------------------------------------------------------ more oracles
+
+def oracle_all_same(ref_role, what):
+    def orc(cases, impl, ctx):
+        n, bad = 0, []
+        for gid, m in groups(cases, impl).items():
+            if ref_role not in m:
+                continue
+            ref = m[ref_role][1]
+            for role, (c, r) in m.items():
+                if role == ref_role:
+                    continue
+                n += 1
+                if r[0] != ref[0] or (ref[0] == "0" and r[1] != ref[1]):
+                    bad.append(fail_payload(what, {ref_role: m[ref_role], role: (c, r)}))
+        return n, bad
+    return orc
+
+
+def oracle_c04(cases, impl, ctx):
+    n1, b1 = oracle_all_same("whole", "the output of -M depends on how the input is split into reads")(cases, impl, ctx)
+    n2, b2 = oracle_same("cli_whole", "cli_seg", "the output of -M depends on how the input is split into reads (real binary)")(cases, impl, ctx)
+    return n1 + n2, b1 + b2
+
+
+def oracle_c08(cases, impl, ctx):
+    import json as J
+    n, bad = 0, []
+    for c in cases:
+        r = impl.get(c.id)
+        if not r or r[0] != "0" or b"--json" not in c.argv:
+            continue
+        eol = b"\0" if b"-z" in c.argv else b"\n"
+        for line in r[1].split(eol):
+            if not line:
+                continue
+            n += 1
+            try:
+                v = J.loads(line.decode("utf-8"), strict=True)
+                ok = isinstance(v, list) and all(isinstance(x, str) for x in v)
+            except Exception:
+                ok = False
+            if not ok:
+                bad.append(("an output line is not a JSON array of strings",
+                            {"why": "not a JSON array of strings", "line_hex": line.hex(), "case": c.to_json(),
+                             "reproduce": c.shell(), "_cases": [c]}))
+                break
+    return n, bad
+
+
+def oracle_c11(cases, impl, ctx):
+    sw = bytes.maketrans(b"\n\0", b"\0\n")
+    n, bad = 0, []
+    for gid, m in groups(cases, impl).items():
+        if "lf" in m and "nul" in m:
+            n += 1
+            a, b = m["lf"][1], m["nul"][1]
+            if a[0] != b[0] or (a[0] == "0" and b[1] != a[1].translate(sw)):
+                bad.append(fail_payload("-z on the input with LF and NUL exchanged does not give the exchanged output", m))
+    return n, bad
+
+
+def oracle_c12(cases, impl, ctx):
+    n, bad = 0, []
+    for c in cases:
+        r = impl.get(c.id)
+        if r is None:
+            continue
+        n += 1
+        if r[0] not in ("0", "1"):
+            bad.append(("terminated with %s instead of status 0 or 1" % r[0],
+                        {"why": "exit class %s" % r[0], "case": c.to_json(), "reproduce": c.shell(), "_cases": [c]}))
+    return n, bad
+
+
+def oracle_c14(cases, impl, ctx):
+    n, bad = 0, []
+    for gid, m in groups(cases, impl).items():
+        if "clean" not in m:
+            continue
+        clean = m["clean"][1]
+        for role, (c, r) in m.items():
+            if role == "clean":
+                continue
+            n += 1
+            kind, k = c.tags["fault"]
+            why = None
+            if r[0] not in ("0", "1"):
+                why = "an I/O fault ended the run with %s (panic / signal) instead of a plain non-zero status" % r[0]
+            elif clean[0] == "0":
+                if not clean[1].startswith(r[1]):
+                    why = "what reached stdout is not a prefix of the fault-free output"
+                elif r[0] == "0" and r[1] != clean[1]:
+                    why = "an I/O fault turned into a successful exit with missing data"
+                elif kind == "w" and k < len(clean[1]) and r[0] == "0":
+                    why = "a failed write was swallowed"
+                elif kind == "w" and len(r[1]) > k:
+                    why = "more bytes delivered than the writer accepted"
+            if why:
+                bad.append(fail_payload(why, {"clean": m["clean"], role: (c, r)}))
+    return n, bad
+
+
+def oracle_c19(cases, impl, ctx):
+    n, bad = oracle_same("order1", "order2", "the decision depends on the order of the options")(cases, impl, ctx)
+    for c in cases:
+        r = impl.get(c.id)
+        if r and r[0] == "1" and r[1] and ctx["model"].get(c.id, ("", b""))[1] == b"" and ctx["model"].get(c.id, ("",))[0] == "1":
+            pass
+    return n, bad
+
+
+def reg(pid, **kw):
+    kw.setdefault("in_domain", always)
+    kw.setdefault("nontrivial", lambda c, m: m[0] == "0" and len(m[1]) > 0)
+    kw.setdefault("assumptions", [])
+    PROPS[pid] = kw
+
+
+reg("C02", gen=lambda rng, n, tier: F.c02(rng, n), budget=(4000, 40000), absolute=False,
+    oracle=oracle_same("general", "fast", "the fast lane and the general path disagree on the same options and input"),
+    nontrivial=lambda c, m: c.entry == "fast" and m[0] == "0" and len(m[1]) > 1,
+    rule="fast-eligible option sets (1-byte delimiter; bounds ascending/descending/repeated/negative/mixed/open/"
+         "formatted/with fallbacks; -j -s -z -t, --fallback-oob) x records with more and fewer fields than the "
+         "right-most bound: the same Opt through read_and_cut_text_as_bytes and read_and_cut_str in-process, and the "
+         "real binary; non-trivial = a fast-lane run that prints data",
+    theorems=[], release=True,
+    assumptions=["delimiter byte < 128 (a 1-byte -d from the command line is ASCII)", "records with < 2^31 fields"])
+
+reg("C03", gen=lambda rng, n, tier: F.c03(rng, n), budget=(3000, 30000), absolute=False,
+    oracle=oracle_all_same("plain", "-M and the same invocation without -M disagree"),
+    nontrivial=lambda c, m: c.tags.get("role") == "stream" and m[0] == "0" and len(m[1]) > 1,
+    rule="-M-compatible option sets (1-byte delimiter, strictly ascending bounds incl. one trailing open range, "
+         "-j, 1-byte -r, -z, own/generic fallbacks, format text) on inputs where every requested range is wholly "
+         "present or wholly absent in every record: read_and_cut_bytes_stream in-process under a random segmentation, "
+         "the real binary with -M, and the real binary without -M",
+    theorems=[], assumptions=["ranges that straddle the end of a record are excluded by the statement"])
+
+reg("C04", gen=lambda rng, n, tier: F.c04(rng, n, exhaustive_upto=(7 if tier == "quick" else 10)),
+    budget=(3000, 30000), absolute=False, oracle=oracle_c04,
+    nontrivial=lambda c, m: len(c.seg) > 1,
+    rule="-M on one input under several segmentations: every segmentation of inputs up to 7 bytes (quick; 10 thorough), "
+         "byte-at-a-time plus random segmentations beyond, through a BufRead double in-process; the real binary through "
+         "the read(2) shim; non-trivial = a run whose input arrives in more than one read",
+    theorems=["C04_segmentation_independence", "C04_any_segmentation_equals_single_read",
+              "C04_side_condition_always_holds", "C04_stream_items_are_the_parsed_bounds"], assumptions=["a read returns at least one byte unless the input is exhausted"])
+
+reg("C05", gen=lambda rng, n, tier: F.c05(rng, n), budget=(3000, 30000), absolute=True,
+    oracle=oracle_same("forward", "buffered", "the one-line-at-a-time reader and the whole-input reader disagree on equivalent requests"),
+    rule="-l with forward and non-forward bounds lists, --no-join, -z, -m, fallbacks, empty lines, missing final EOL, "
+         "invalid UTF-8; plus pairs of equivalent requests (ascending positive vs one index written negatively)",
+    theorems=[], assumptions=["format text in -l is outside the statement"])
+
+reg("C07", gen=lambda rng, n, tier: F.c07(rng, n), budget=(3000, 30000), absolute=True,
+    rule="-c on valid UTF-8 records with 1-4 byte scalars, combining marks, ZWJ, characters next to word boundaries, "
+         "0/1/many characters per record, bounds incl. negative/open/format text, -z, --json, -m, fallbacks",
+    theorems=[], assumptions=["regex's \\b|\\B yields an empty match at every scalar boundary of a valid UTF-8 haystack "
+                              "(assumed; exercised by this run)"])
+
+reg("C08", gen=lambda rng, n, tier: F.c08(rng, n), budget=(3000, 30000), absolute=True, oracle=oracle_c08,
+    rule="--json in -f and -c mode on valid UTF-8 with quotes, backslashes, U+0000-1F, U+007F, U+2028, astral "
+         "characters; multi-byte delimiters, -g -p -t -s -m -z, fallbacks; every output line is also parsed by "
+         "Python's strict json.loads",
+    theorems=[], assumptions=["serde_json's escape table as transcribed"])
+
+reg("C11", gen=lambda rng, n, tier: F.c11(rng, n), budget=(3000, 30000), absolute=False, oracle=oracle_c11,
+    nontrivial=lambda c, m: c.tags.get("role") == "nul" and m[0] == "0" and len(m[1]) > 1,
+    rule="pairs (ARGS, I) / (-z ARGS, swap(I)) over alphabets with LF, NUL and CR for the general path, the fast "
+         "lane, -c, -l (both algorithms), --json and -M; option texts contain neither LF nor NUL",
+    theorems=[], assumptions=["option texts (delimiter, replacement, fillers, fallbacks) contain neither LF nor NUL"])
+
+reg("C12", gen=lambda rng, n, tier: F.c12(rng, n, exhaustive_len=(3 if tier == "quick" else 4)),
+    budget=(3000, 40000), absolute=True, oracle=oracle_c12, release=True,
+    nontrivial=lambda c, m: True,
+    rule="bounded-exhaustive bounds strings over {1,2,-,:,=,{,},comma,a,e-acute} up to length 3 (4 thorough) as "
+         "-f/-c/-b/-l, plus argv from the option grammar with adversarial pools (0, +-2^31, 2^31+-1, 46341, huge "
+         "ranges, unbalanced braces, empty strings, bad regexes, bad -M/-t values, dangling options) x adversarial "
+         "stdin; oracle: exit status 0 or 1 within the timeout",
+    theorems=[], assumptions=["regexes outside the modelled family are covered by the exit-status oracle only"])
+
+reg("C14", gen=lambda rng, n, tier: F.c14(rng, n), budget=(2500, 25000), absolute=False, oracle=oracle_c14,
+    compare=lambda c: not c.extra,
+    nontrivial=lambda c, m: bool(c.extra),
+    rule="every mode; read(0) starts failing (EIO) after k bytes, write(1) accepts k bytes then fails (ENOSPC), "
+         "1-byte short writes - through an LD_PRELOAD shim on the real binary; each faulty run compared with the "
+         "fault-free run of the same invocation",
+    theorems=[], assumptions=["SIGPIPE disposition, kernel pipe semantics and EINTR handling of std are runtime facts "
+                              "exercised, not proved"])
+
+reg("C18", gen=lambda rng, n, tier: F.c18(rng, n, maxlen=(3 if tier == "quick" else 4)), budget=(2000, 20000),
+    absolute=True, nontrivial=lambda c, m: m[0] == "0",
+    rule="every string up to length 3 (4 thorough) over {1,2,0,-,+,:,=,{,},comma,backslash,n,a,space,e-acute} "
+         "through UserBoundsList::from_str in-process (accept/reject and the parsed structure compared with the "
+         "model), longer random strings biased to well-formed pieces, and the rendering through the real binary",
+    theorems=[], assumptions=["braces inside a fallback are outside the statement (Unspecified_C18)"])
+
+reg("C19", gen=lambda rng, n, tier: F.c19(rng, n, full=(tier == "thorough")), budget=(5000, 5000), absolute=True,
+    oracle=oracle_c19, nontrivial=lambda c, m: True,
+    rule="subsets of the option set {-f|-c|-b|-l, -d, -e, -g, -p, -s, -z, -m, -j, --no-join, --json, -r, -t, "
+         "--fallback-oob, -M} with representative values (quick: random small subsets with value variants - "
+         "multi-byte/empty -d and -r, -M 0, bounds shapes; thorough: all 5*2^14 subsets), and reorderings",
+    theorems=[], assumptions=["-e in -b/-l mode and several mode options at once are outside the statement"])
